@@ -346,5 +346,15 @@ def ext_igris_memmem(interp, st, i, args):
     return out
 
 
+def ext_std(interp, st, i, args):
+    """a libstdc++ member/helper that is not analysed: it may write to the objects handed to it by pointer
+    or reference (and to the heap it owns), to nothing else; result unknown"""
+    for a in args:
+        if isinstance(a, PtrVal) and a.obj is not None:
+            interp.escape(st, a)
+            interp.havoc_obj(st, a.obj)
+    return [(st, None)]
+
+
 LIBC_EXT = {'memchr': ext_memchr, 'memcmp': ext_memcmp, 'strchr': ext_strchr, 'strcmp': ext_strcmp,
             'strlen': ext_strlen19, 'igris_memmem': ext_igris_memmem}
